@@ -218,5 +218,178 @@ theorem lookupPvalue_spec {bg : List Rat} (hbg : ∀ b ∈ bg, 0 ≤ b) (rows : 
     · simp only [hD, if_false]
       by_cases h5 : s - (E + 2) * g ≤ S <;> simp [h5]
 
+/-! ### the total mass -/
+
+theorem sum_zip_snd_le {β : Type} {bg : List Rat} (hbg : ∀ b ∈ bg, 0 ≤ b) (r : List β) :
+    0 ≤ ((r.zip bg).map (·.2)).sum ∧ ((r.zip bg).map (·.2)).sum ≤ bg.sum := by
+  induction bg generalizing r with
+  | nil => simp
+  | cons b t ih =>
+    have hb : 0 ≤ b := hbg b (by simp)
+    have ht : ∀ b' ∈ t, 0 ≤ b' := fun b' hb' => hbg b' (by simp [hb'])
+    cases r with
+    | nil => simpa using add_nonneg hb (List.sum_nonneg ht)
+    | cons x r' =>
+      obtain ⟨h1, h2⟩ := ih ht r'
+      simp only [List.zip_cons_cons, List.map_cons, List.sum_cons]
+      constructor <;> linarith
+
+theorem totalMass_bounds {bg : List Rat} (hbg : ∀ b ∈ bg, 0 ≤ b) (hsum : bg.sum ≤ 1)
+    (rows : List (List Rat)) : 0 ≤ totalMass bg rows ∧ totalMass bg rows ≤ 1 := by
+  induction rows with
+  | nil => simp [totalMass, expect]
+  | cons r rs ih =>
+    obtain ⟨h1, h2⟩ := sum_zip_snd_le hbg r
+    simp only [totalMass, expect] at ih ⊢
+    rw [List.sum_map_mul_right]
+    constructor
+    · exact mul_nonneg h1 ih.1
+    · calc _ ≤ (1 : Rat) * 1 := mul_le_mul (le_trans h2 hsum) ih.2 ih.1 (by norm_num)
+        _ = 1 := by norm_num
+
+/-! ### the score distribution does not depend on the order of the rows -/
+
+theorem list_sum_comm {β γ : Type} (l₁ : List β) (l₂ : List γ) (F : β → γ → Rat) :
+    (l₁.map fun a => (l₂.map fun b => F a b).sum).sum =
+      (l₂.map fun b => (l₁.map fun a => F a b).sum).sum := by
+  induction l₁ with
+  | nil => simp
+  | cons a t ih => simp only [List.map_cons, List.sum_cons, ih, List.sum_map_add]
+
+theorem expect_perm (bg : List Rat) {rows rows' : List (List Rat)} (h : rows.Perm rows')
+    (f : Rat → Rat) : expect bg rows f = expect bg rows' f := by
+  induction h generalizing f with
+  | nil => rfl
+  | cons r _ ih =>
+    simp only [expect]
+    congr 1
+    apply List.map_congr_left
+    intro xb _
+    rw [ih]
+  | swap a b l =>
+    simp only [expect]
+    simp only [← List.sum_map_mul_left]
+    rw [list_sum_comm]
+    congr 1
+    apply List.map_congr_left
+    intro xa _
+    congr 1
+    apply List.map_congr_left
+    intro xb _
+    have : (fun s => f (xb.1 + (xa.1 + s))) = (fun s => f (xa.1 + (xb.1 + s))) := by
+      funext s; congr 1; ring
+    rw [this]; ring
+  | trans _ _ ih₁ ih₂ => rw [ih₁, ih₂]
+
+theorem permute_perm {β : Type} (rows : List (List β)) {perm : List Nat}
+    (hperm : perm.Perm (List.range rows.length)) : (permute rows perm).Perm rows := by
+  unfold permute
+  have h1 := hperm.map (fun p => rows.getD p [])
+  have h2 : (List.range rows.length).map (fun p => rows.getD p []) = rows := by
+    apply List.ext_getElem
+    · simp
+    · intro i h1 h2
+      simp [List.getD_eq_getElem?_getD, h2]
+  rw [h2] at h1
+  exact h1
+
+theorem tail_permute (bg : List Rat) (rows : List (List Rat)) {perm : List Nat}
+    (hperm : perm.Perm (List.range rows.length)) (x : Rat) :
+    tail bg (permute rows perm) x = tail bg rows x :=
+  expect_perm bg (permute_perm rows hperm) _
+
+/-! ### every refinement step -/
+
+theorem pvalueSteps_mem {rows : List (List Rat)} {bg : List Rat} {s : Rat} {fuel : Nat} {g : Rat}
+    {conv : Bool} {it : Iteration Rat} (h : it ∈ pvalueSteps rows bg s fuel g conv) (hg : 0 < g) :
+    (∃ k : Nat, it.granularity = g / 10 ^ k) ∧ it.score = s ∧
+      (it.start, it.stop) = lookupPvalue (recompute rows it.granularity) bg s := by
+  induction fuel generalizing g conv with
+  | zero => simp [pvalueSteps] at h
+  | succ n ih =>
+    unfold pvalueSteps at h
+    split at h
+    · simp at h
+    · simp only [List.mem_cons] at h
+      rcases h with h | h
+      · subst h
+        exact ⟨⟨0, by simp⟩, rfl, rfl⟩
+      · obtain ⟨⟨k, hk⟩, h2, h3⟩ := ih h (by simp only [div_rat, ten_rat]; positivity)
+        refine ⟨⟨k + 1, ?_⟩, h2, h3⟩
+        rw [hk]; simp only [div_rat, ten_rat]; rw [pow_succ]; field_simp
+
+/-- **C12.**  Every `Iteration` of `approximate_pvalue(s)` — for every matrix, every order of its
+    rows, every non-negative background, every score — is taken at a granularity `g = 10^-(k+1)`
+    and reports `pmin ≤ pmax` with `P(S ≥ s+(M+1)g) ≤ pmin`, `pmax ≤ P(S ≥ s-(M+2)g)`,
+    `0 ≤ pmin`, `pmax ≤` total mass (`≤ 1` when the background sums to at most 1, `totalMass_bounds`);
+    `S` is the exact score of a background-distributed word under the ORIGINAL row order. -/
+theorem c12 {bg : List Rat} (hbg : ∀ b ∈ bg, 0 ≤ b) (rows : List (List Rat)) (hne : rows ≠ [])
+    {perm : List Nat} (hperm : perm.Perm (List.range rows.length)) (s : Rat) (fuel : Nat)
+    {it : Iteration Rat} (hit : it ∈ approximatePvalue (permute rows perm) bg s fuel) :
+    (∃ k : Nat, it.granularity = (1 / 10) ^ (k + 1)) ∧
+      it.start ≤ it.stop ∧ 0 ≤ it.start ∧ it.stop ≤ totalMass bg rows ∧
+      tail bg rows (s + (rows.length + 1) * it.granularity) ≤ it.start ∧
+      it.stop ≤ tail bg rows (s - (rows.length + 2) * it.granularity) := by
+  unfold approximatePvalue at hit
+  obtain ⟨⟨k, hk⟩, _, hlk⟩ := pvalueSteps_mem hit (by simp)
+  have hg : 0 < it.granularity := by rw [hk]; simp only [tenth_rat]; positivity
+  set prow := permute rows perm with hprow
+  have hlen : prow.length = rows.length := by
+    rw [hprow]; exact (permute_perm rows hperm).length_eq
+  have hne' : prow ≠ [] := by
+    intro h; rw [h] at hlen; exact hne (List.length_eq_zero_iff.1 hlen.symm)
+  obtain ⟨h1, h2, h3⟩ := lookupPvalue_spec hbg prow hne' hg s
+  rw [← hlk] at h1 h2 h3
+  simp only at h1 h2 h3
+  obtain ⟨hE0, hE1⟩ := errorMax_bounds it.granularity prow
+  rw [hlen] at hE1
+  have hM : (1 : Rat) ≤ rows.length := by
+    have : 0 < rows.length := List.length_pos_iff.2 hne
+    exact_mod_cast this
+  have hE1' : errorMax it.granularity prow ≤ (rows.length : Rat) - 1 := by
+    have : ((rows.length - 1 : Nat) : Rat) = (rows.length : Rat) - 1 := by
+      rw [Nat.cast_sub (List.length_pos_iff.2 hne)]; simp
+    rw [this] at hE1; exact hE1
+  rw [tail_permute bg rows hperm] at h1 h3
+  refine ⟨⟨k, ?_⟩, h2, ?_, ?_, ?_, ?_⟩
+  · rw [hk]; simp only [tenth_rat]; rw [pow_succ, one_div, inv_pow]; field_simp
+  · exact le_trans (tail_nonneg hbg rows _) h1
+  · exact le_trans h3 (tail_le_total hbg rows _)
+  · refine le_trans (tail_antitone hbg rows ?_) h1
+    have : (errorMax it.granularity prow + 1) * it.granularity ≤ ((rows.length : Rat) + 1) * it.granularity :=
+      mul_le_mul_of_nonneg_right (by linarith) (le_of_lt hg)
+    linarith
+  · refine le_trans h3 (tail_antitone hbg rows ?_)
+    have : (errorMax it.granularity prow + 2) * it.granularity ≤ ((rows.length : Rat) + 2) * it.granularity :=
+      mul_le_mul_of_nonneg_right (by linarith) (le_of_lt hg)
+    linarith
+
+/-- the hypotheses of `c12` are satisfiable and the iterator does produce iterations -/
+example : ∃ it, it ∈ approximatePvalue (permute [[(1 : Rat), -1], [0, 2]] [1, 0]) [1 / 2, 1 / 2] (1 / 3) 1 := by
+  simp [approximatePvalue, pvalueSteps]
+
+/-- the property as stated in properties.jsonl (width `M ≥ 2`, a background that is a probability
+    vector on the non-wildcard symbols), for the model -/
+def Statement : Prop :=
+  ∀ (bg : List Rat) (rows : List (List Rat)) (perm : List Nat) (s : Rat) (fuel : Nat),
+    (∀ b ∈ bg, 0 ≤ b) → bg.sum ≤ 1 → 2 ≤ rows.length → perm.Perm (List.range rows.length) →
+    ∀ it ∈ approximatePvalue (permute rows perm) bg s fuel,
+      it.start ≤ it.stop ∧ 0 ≤ it.start ∧ it.stop ≤ 1 ∧
+        tail bg rows (s + (rows.length + 1) * it.granularity) ≤ it.start ∧
+        it.stop ≤ tail bg rows (s - (rows.length + 2) * it.granularity)
+
+theorem c12_statement : Statement := by
+  intro bg rows perm s fuel hbg hsum hM hperm it hit
+  have hne : rows ≠ [] := by intro h; simp [h] at hM
+  obtain ⟨_, h1, h2, h3, h4, h5⟩ := c12 hbg rows hne hperm s fuel hit
+  exact ⟨h1, h2, le_trans h3 (totalMass_bounds hbg hsum rows).2, h4, h5⟩
+
+/-- `tail` is the sum, over the explicit list of all words, of the probabilities of the words
+    scoring at least `x` -/
+theorem tail_eq_words (bg : List Rat) (rows : List (List Rat)) (x : Rat) :
+    tail bg rows x =
+      ((words bg rows).map fun w => wordProb w * (if x ≤ wordScore w then 1 else 0)).sum :=
+  expect_eq_words bg rows _
+
 end C12
 end LMV
